@@ -340,6 +340,8 @@ impl PageCache {
             }
         }
 
+        #[cfg(kahflane_turdb_verif)]
+        crate::verif_hooks::yield_point("cache.miss.before_write_lock");
         let shard = self.shard(&key);
         let mut guard = shard.write();
 
